@@ -241,14 +241,15 @@ Proof.
 Qed.
 
 Lemma has_restore_false c : has_restore P C c = false → restore_set P C c = [].
-Proof. unfold has_restore. intros H%negb_false_iff. by apply bool_decide_eq_true in H. Qed.
+Proof. unfold has_restore. by destruct (restore_set P C c). Qed.
 Lemma has_restore_true c : has_restore P C c = true → restore_set P C c ≠ [].
-Proof. unfold has_restore. intros H%negb_true_iff. by apply bool_decide_eq_false in H. Qed.
+Proof. unfold has_restore. by destruct (restore_set P C c). Qed.
 
 (* an entry with restore requests makes its id "restored" *)
 Lemma has_restore_restored c : c ∈ entries C → has_restore P C c = true → is_restored P C c = true.
 Proof.
-  intros Hc Hr. unfold is_restored. apply bool_decide_eq_true. unfold restored_ids.
+  intros Hc Hr. unfold is_restored. apply existsb_exists. exists (s_id c). split; [|apply N.eqb_refl].
+  apply elem_of_list_In. unfold restored_ids.
   apply elem_of_list_fmap. exists c. split; [done|]. apply elem_of_list_filter. by split.
 Qed.
 End Inv.
@@ -755,7 +756,7 @@ Proof.
   intros Hal Hc Hn.
   destruct (group_in_batch b c Hal Hc) as (pre & Hb & Hg & Hin).
   assert (has_restore P C c = true) as Hh.
-  { unfold has_restore. apply negb_true_iff, bool_decide_eq_false. intros Hnil. rewrite Hnil in Hn. by apply elem_of_nil in Hn. }
+  { unfold has_restore. destruct (restore_set P C c); [by apply elem_of_nil in Hn|done]. }
   apply group_allowed_inv in Hg as [(_ & sd & _ & Hok)|(Hh' & _)]; [|congruence].
   pose proof Hok as Hok'. unfold restore_group_ok in Hok'. apply bool_decide_eq_true in Hok' as [Hperm _].
   assert ((r_id n, r_addr n) ∈ (λ q, (q_inst q, q_raft q)) <$> group_of c pre) as Hex.
